@@ -634,3 +634,82 @@ for _w in ("RemoveOptionalBiasFromConv", "RemoveOptionalBiasFromConvTranspose", 
                                ("onnxscript/rewriter/rules/common/_remove_optional_bias.py", "_RemoveOptionalBias.rewrite")],
                               trusted=["ONNX Conv / ConvTranspose / QLinearConv / Gemm: an omitted bias is zero", "numpy: (a == 0).all() implies every element is 0"],
                               assumptions=["floats treated as reals"]))
+
+
+def s_transpose_identity(ctx):
+    """TransposeIdentity: Transpose(x, perm) -> Identity(x) fires only for a perm attribute that is present, not a reference,
+    of type INTS and equal to (0, 1, ..., n-1)."""
+    import onnx_ir as ir
+    from onnxscript.rewriter.rules.common import _basic_rules
+    from pyvc.values import SBool
+    I = Interp(ctx)
+    W = World(I)
+    x = W.value("x", dims=None, rt=[], dtype=ir.DataType.FLOAT)
+    n = ctx.choose(4, "length of perm")
+    items = []
+    for i in range(n):
+        t = ctx.int(f"perm{i}")
+        ctx.witness[f"perm{i}"] = t
+        items.append(SInt(t))
+    is_ref = ctx.choose(2, "perm is a reference attribute") == 1
+    typ = [ir.AttributeType.INTS, ir.AttributeType.INT, ir.AttributeType.TENSOR][ctx.choose(3, "type of perm")]
+    perm = SObj(ir.Attr, "perm")
+
+    def f_is_ref():
+        raise AssertionError
+
+    def f_as_ints():
+        raise AssertionError
+    I.models[f_is_ref] = lambda interp: is_ref
+    I.models[f_as_ints] = lambda interp: list(items)
+    perm.fields.update(name="perm", type=typ, value=(None if is_ref else list(items)), is_ref=f_is_ref, as_ints=f_as_ints)
+    rule = SObj(_basic_rules.TransposeIdentity, "rule")
+    try:
+        fired = I.truth(I.call(I.getattr(rule, "check"), [None, x, perm]))
+    except PyRaise as e:
+        ctx.check("C04.rules.TransposeIdentity.check_never_raises", False, CL04 + f" — raised {e.exc!r}")
+        return
+    ctx.check("C04.rules.TransposeIdentity.check_never_raises", True, CL04)
+    if not fired:
+        ctx.cover("TransposeIdentity.check_failed")
+        return
+    ctx.check("C05.rules.TransposeIdentity.fires_only_for_a_known_identity_permutation",
+              z3.And(z3.BoolVal(not is_ref and typ == ir.AttributeType.INTS), *[it.t == i for i, it in enumerate(items)]),
+              "C05: 'A rule whose algebraic side-condition cannot be established from the model itself ... does not fire'")
+    r = I.call(I.getattr(rule, "rewrite"), [OpRecorder(), x, perm])
+    ctx.check("C05.rules.TransposeIdentity.replacement_is_identity_of_x", isinstance(r, Call) and r.op == "Identity" and r.args == (x,) and not r.kwargs, CL09)
+
+
+SCENARIOS.append(Scenario("C05.rules.TransposeIdentity", s_transpose_identity,
+                          [("onnxscript/rewriter/rules/common/_basic_rules.py", "TransposeIdentity.check"), ("onnxscript/rewriter/rules/common/_basic_rules.py", "TransposeIdentity.rewrite")],
+                          kind="bounded", bound="perm of length <= 3, entries unbounded", trusted=["ONNX Transpose: output axis i is input axis perm[i]"]))
+
+
+def s_squeeze_reshape(ctx):
+    """SqueezeReshape: Reshape(Squeeze(x), [-1]) -> Identity(x) fires only if x is KNOWN to have rank 1 (then Squeeze drops
+    the axis iff its extent is 1 and Reshape([-1]) restores a 1-D tensor with the same elements: d elements for every d >= 0)."""
+    import onnx_ir as ir
+    from onnxscript.rewriter.rules.common import _basic_rules
+    I = Interp(ctx)
+    W = World(I)
+    static, rt = choose_shape(ctx, W, "x", max_rank=3, kinds=["int", "N", "unknown"])
+    x = W.value("x", dims=static, rt=rt, dtype=ir.DataType.FLOAT)
+    rule = SObj(_basic_rules.SqueezeReshape, "rule")
+    fired = I.truth(I.call(I.getattr(rule, "check"), [None, x]))
+    if not fired:
+        ctx.cover("SqueezeReshape.check_failed")
+        return
+    ctx.check("C09.rules.SqueezeReshape.fires_only_for_a_known_rank_1_input", static is not None and len(static) == 1, CL09)
+    if static is None or len(static) != 1:
+        return
+    d = rt[0]
+    squeezed_count = z3.If(d == 1, z3.IntVal(1), d)          # elements after Squeeze (scalar = 1 element) = d in both cases
+    ctx.check("C09.rules.SqueezeReshape.reshape_minus_one_of_the_squeezed_tensor_has_the_extent_of_x_for_every_binding", squeezed_count == d, CL09)
+    r = I.call(I.getattr(rule, "rewrite"), [OpRecorder(), x])
+    ctx.check("C05.rules.SqueezeReshape.replacement_is_identity_of_x", isinstance(r, Call) and r.op == "Identity" and r.args == (x,) and not r.kwargs, CL09)
+
+
+SCENARIOS.append(Scenario("C09.rules.SqueezeReshape", s_squeeze_reshape,
+                          [("onnxscript/rewriter/rules/common/_basic_rules.py", "SqueezeReshape.check"), ("onnxscript/rewriter/rules/common/_basic_rules.py", "SqueezeReshape.rewrite"),
+                           ("onnxscript/rewriter/_ir_utils.py", "has_rank")],
+                          kind="bounded", bound="rank of x <= 3 or unknown; extents unbounded", trusted=TRUST))
